@@ -67,6 +67,11 @@ static long op_cmd_null (SNDFILE *sf) { int r ; INLIB (r = sf_command (sf, SFC_G
 static long op_setstr (SNDFILE *sf) { int r ; INLIB (r = sf_set_string (sf, SF_STR_TITLE, "T")) ; return r ; }
 static int  k_setstr (void) { return writable () ? V_VALID : V_INVALID ; }
 static long op_setstr_null (SNDFILE *sf) { int r ; INLIB (r = sf_set_string (sf, SF_STR_TITLE, NULL)) ; return r ; }
+/* raw transfers of 3 bytes on a 2-channel handle: never a whole number of frames, whatever the encoding (block codecs have no frame width: the channel count is the unit) */
+static long op_rawread3 (SNDFILE *sf) { sf_count_t r ; static unsigned char rb [16] ; INLIB (r = sf_read_raw (sf, rb, 3)) ; return r ; }
+static long op_rawwrite3 (SNDFILE *sf) { sf_count_t r ; static const unsigned char wb [16] = { 1, 2, 3 } ; INLIB (r = sf_write_raw (sf, wb, 3)) ; return r ; }
+static int  k_rawread3 (void) { return CH == 2 && readable () ? V_INVALID : V_NA ; }
+static int  k_rawwrite3 (void) { return CH == 2 && writable () ? V_INVALID : V_NA ; }
 static long op_setstr_empty (SNDFILE *sf) { int r ; INLIB (r = sf_set_string (sf, SF_STR_TITLE, "")) ; return r ; }	/* only the software string may be empty */
 static int  k_setstr_empty (void) { return writable () ? V_INVALID : V_NA ; }
 static long op_setstr_type (SNDFILE *sf) { int r ; INLIB (r = sf_set_string (sf, 0x777, "x")) ; return r ; }
@@ -91,6 +96,7 @@ static const Op ops [] =
 	{ "seek-rmode-cur0", k_seek_rmode, op_seek_rmode_cur0, RK_SEEK }, { "seek-rmode-cur1", k_seek_rmode, op_seek_rmode_cur1, RK_SEEK }, { "seek-rmode-end", k_seek_rmode, op_seek_rmode_end, RK_SEEK },
 	{ "cmd-unknown", k_inv, op_cmd_unknown, RK_CODE }, { "cmd-null", k_inv, op_cmd_null, RK_CODE },
 	{ "setstr-null", k_inv, op_setstr_null, RK_CODE }, { "setstr-empty", k_setstr_empty, op_setstr_empty, RK_CODE }, { "setstr-type", k_inv, op_setstr_type, RK_CODE },
+	{ "raw-read-3", k_rawread3, op_rawread3, RK_COUNT }, { "raw-write-3", k_rawwrite3, op_rawwrite3, RK_COUNT },
 	{ "setchunk-null", k_inv, op_setchunk_null, RK_CODE }, { "chunksize-null", k_inv, op_chunksize_null, RK_CODE },
 } ;
 #define NOPS ((int) (sizeof (ops) / sizeof (ops [0])))
